@@ -181,7 +181,7 @@ def run_execution(cfg):
                          step_budget=cfg.get("step_budget", 200_000) * (8 if sched.get("lines") else 1))
             if replay is not None:
                 ov = replay.get(str(inv), {})
-                s.overrides = {int(k): v for k, v in ov.items()}
+                s.overrides = {(k if str(k).startswith("y") else int(k)): v for k, v in ov.items()}
             cs = w.take_fault(lambda f: f["kind"] == "crash" and f.get("at") == "step" and f.get("inv") == inv)
             if cs:
                 s.crash_at_step = cs["n"]
@@ -257,7 +257,10 @@ def run_execution(cfg):
             # PENDING: decide when (whether) the backend re-invokes
             be.advance()
             mark = be.tokens.get(be.latest_token, 0)
-            unseen = any(op["_v"] > mark for op in be.ops.values())
+            # the backend re-invokes at once if a timer fired or an external event arrived after this
+            # invocation was started (its input did not contain that change), whether or not a later
+            # checkpoint response happened to carry it
+            unseen = any(op["_v"] > mark for op in be.ops.values()) or any(v > be.inv_start_version for v in be.world_versions)
             sp = w.take_fault(lambda f: f["kind"] == "spurious" and f.get("after_inv") == inv)
             if unseen:
                 reason_to_invoke = "unseen-change"
